@@ -702,14 +702,17 @@ def _ptr_base(f, ins, depth=0):
 
 def check_erase(m, f, rule):
     calls = [c for c in f.all_insts() if c.op == 'call' and c.callee and not c.is_intrinsic()]
-    finds = [c for c in calls if _tree_role(m, c.callee) == 'finder']
+    # a comparison helper called from a search loop written in place is not a lookup routine
+    finds = [c for c in calls if _tree_role(m, c.callee) == 'finder' and not f.in_cycle(c.block)]
     bad = []
+    unl = [c for c in calls if _tree_role(m, c.callee) == 'unlinker']
+    if not finds and len(unl) == 1 and any(_tree_role(m, c.callee) == 'finder' for c in calls):
+        return _check_erase_open_coded(m, f, rule, unl[0])
     if len(finds) != 1:
         rule.undecided(f.name, '%d calls of a lookup routine (compares through the tree, writes nothing)' % len(finds), floc(m, f))
         return
     p = finds[0]
     pk = _k(p.ref)
-    unl = [c for c in calls if _tree_role(m, c.callee) == 'unlinker']
     if not unl:
         bad.append('the node that find returned is never handed to the unlink routine')
     for c in unl:
@@ -760,6 +763,54 @@ def check_erase(m, f, rule):
         rule.violation(f.name, '; '.join(sorted(set(bad))), floc(m, f), {})
     else:
         rule.ok(f.name, 'p = find(); unlink(node(p)) exactly once under p != NULL; return p (NULL when absent)', floc(m, f))
+
+
+def _check_erase_open_coded(m, f, rule, un):
+    """the search loop is written in place (or its private helper, returning node and parent together, was inlined): the
+    lookup's result is the node value X handed to the unlink routine.  Decided: unlink exactly once and only under
+    X != NULL, the element of X returned then, NULL otherwise.  That X is the node that compared equal is W6's clause on
+    find and is NOT decided here."""
+    x = strip_bitcasts(f, un.o[1]) if len(un.o) > 1 and isinstance(un.o[1], str) else None
+    if x is None:
+        rule.undecided(f.name, 'the node handed to the unlink routine is not a value', floc(m, f))
+        return
+    xk = _k(x)
+    bad = []
+
+    def transfer(ins, n, ps):
+        if ins is un:
+            if ps.knows(('ne', xk, 'null')) is not True:
+                bad.append('the unlink at %s runs without the searched node being known non-NULL' % ins.loc())
+            return min(n + 1, 2)
+        if ins.op in ('inttoptr', 'getelementptr'):
+            base = _ptr_base(f, ins)
+            if base is not None and ps.knows(('ne', _k(base), 'null')) is True:
+                return typestate.With(n, atoms=[('ne', _k(ins.ref), 'null')])
+        return n
+    try:
+        res = typestate.run(f, 0, transfer, limit=40000)
+    except typestate.Limit as e:
+        rule.undecided(f.name, str(e), floc(m, f))
+        return
+    if not res.exits:
+        rule.undecided(f.name, 'no return reached', floc(m, f))
+        return
+    for r, ps in res.exits:
+        rv = typestate.value_of(f, ps, r.o[0]) if r.o else None
+        if ps.auto == 1:
+            if not (isinstance(rv, str) and _derived(m, f, rv, x)):
+                bad.append('after unlinking, erase does not return the element of the node it unlinked (return at %s)' % r.loc())
+        elif ps.auto == 0:
+            if ps.knows(('ne', xk, 'null')) is True:
+                bad.append('a found node is not unlinked on a path to the return at %s' % r.loc())
+            if not (rv == 'null' or const_int(rv) == 0):
+                bad.append('erase does not return NULL on a path on which nothing was unlinked (return at %s)' % r.loc())
+        else:
+            bad.append('a node is unlinked more than once on a path to the return at %s' % r.loc())
+    if bad:
+        rule.violation(f.name, '; '.join(sorted(set(bad))), floc(m, f), {})
+    else:
+        rule.ok(f.name, 'search written in place: unlink(X) exactly once under X != NULL, element of X returned, NULL when nothing was unlinked', floc(m, f))
 
 
 def _via_helper(f, o, root):
